@@ -23,3 +23,31 @@ Theorem C19_container_volume_preserved : forall cf v,
   fst (standard_format_container cf v) * pmult (snd (standard_format_container cf v)) == v * pmult (vol_pfx cf).
 Proof. exact standard_format_container_preserves. Qed.
 Print Assumptions C19_container_volume_preserved.
+
+(* ---- the amounts stated by the instruction lines of transfer, fill_to and dilute (Instr2.v) are the amounts moved / added ---- *)
+Require Import ContainerThm Dilute Instr2.
+Theorem C19_transfer_instruction : forall cf src dst q s' d', Inv cf src ->
+  transfer cf src dst q = Ok (s', d') ->
+  exists r, transfer_ratio cf src q = Ok r /\
+    let a := transfer_instr cf src r in
+    (has_liquid src = true -> ~ r * vol src == 0 ->
+       snd a = BL /\ denotes3 a == total_in cf (cont src) (P0, BL) - total_in cf (cont s') (P0, BL)) /\
+    (has_liquid src = false -> ~ total_in cf (cont src) (Pm, BG) * r == 0 ->
+       snd a = BG /\ denotes3 a == total_in cf (cont src) (P0, BG) - total_in cf (cont s') (P0, BG)).
+Proof. exact transfer_instr_true. Qed.
+Print Assumptions C19_transfer_instruction.
+Theorem C19_fill_instruction : forall cf c solvent q c', wf_subst solvent -> is_enzyme solvent = false ->
+  fill_to cf c solvent q = Ok c' ->
+  let a := fill_instr cf c solvent q in
+  ~ solvent_volume solvent (Qmax0 (qv q - total_in cf (cont c) (P0, qbase q))) (P0, qbase q) == 0 ->
+  snd a = BL /\ denotes3 a == conv_stored cf solvent (get solvent (cont c') - get solvent (cont c)) (P0, BL).
+Proof. exact fill_instr_true. Qed.
+Print Assumptions C19_fill_instruction.
+Theorem C19_dilute_instruction : forall cf c solute t solvent c', wf_subst solvent ->
+  dilute cf c solute t solvent = Ok c' ->
+  let a := dilute_instr cf c solute t solvent in
+  ~ solvent_volume solvent (dilute_required cf c solute t solvent) (Pu, BMol) == 0 ->
+  Qeqb (rnd (to_storage_mol cf (dilute_required cf c solute t solvent) Pu)) 0 = false ->
+  snd a = BL /\ denotes3 a == conv_stored cf solvent (get solvent (cont c') - get solvent (cont c)) (P0, BL).
+Proof. exact dilute_instr_true. Qed.
+Print Assumptions C19_dilute_instruction.
